@@ -408,6 +408,15 @@ class Exec:
                             if k != "otherwise":
                                 taken.append("true" if (int(k) != 0) == is_true else "false")
                             continue
+                    if v[0] == "bv" and re.match(r"^\(_ bv\d+ \d+\)$", v[1]):
+                        # concrete integer (a literal discriminant): follow only the arm that is taken
+                        lit = int(v[1].split()[1][2:])
+                        ks = [a.split(":")[0].strip() for a in arms]
+                        hit = str(lit) if str(lit) in ks else "otherwise"
+                        if k != hit:
+                            continue
+                        self._block(tgt, dict(env), pc, steps + 1)
+                        continue
                     if k == "otherwise":
                         def neg1(c):
                             return c[5:-1] if c.startswith("(not ") and c.endswith(")") and c.count("(") == c.count(")") and _balanced(c[5:-1]) else f"(not {c})"
